@@ -75,6 +75,12 @@ def gen_case(st, i, tier="quick", op=None):
         if lonlat:
             cx, cy = rng.choice([0.5, 1.0, 2.0]), rng.choice([0.5, 1.0, 2.0])
             x0, y0 = rng.choice([-60.0, 0.0, 10.0]), rng.choice([-20.0, 0.0, 5.0])
+            if rng.random() < 0.3:
+                # a raster spanning most of the globe: the two far corners are not its largest distance
+                cx = 340.0 / max(W - 1, 1)
+                x0 = -170.0
+                cy = min(cy, 120.0 / max(H - 1, 1))
+                y0 = rng.choice([-60.0, -30.0, 0.0])
         else:
             cx = rng.choice([0.5, 1.0, 2.0, 3.0, 0.1, 0.3, 0.7])
             cy = rng.choice([0.5, 1.0, 2.0, 3.0, 0.1, 0.3, 0.7])
@@ -141,6 +147,22 @@ def gen_case(st, i, tier="quick", op=None):
     if rng.random() < 0.2:
         from .gen_c01 import gen_dask_config
         case["dask_config"] = gen_dask_config(st["config"])
+    prng = st["pair"]
+    if prng.random() < 0.2:
+        # a second lazy result on the same Dask raster that differs in one parameter only; both are
+        # computed by one dask.compute (graph keys of the two must not collide)
+        p2 = copy.deepcopy(case["params"])
+        which = prng.choice(["targets", "targets", "max_distance"])
+        if which == "targets":
+            cur = p2.get("target_values")
+            p2["target_values"] = prng.choice([x for x in ([1], [2, 3], [3], [1, 2, 3], None) if x != cur])
+        else:
+            md = p2.get("max_distance")
+            if md is not None and np.isfinite(md):
+                p2["max_distance"] = md * prng.choice([0.5, 2.0])
+        c2 = dict(case, params=p2)
+        if in_domain(c2):
+            case["pair"] = {"params": p2}
     return case
 
 
@@ -223,7 +245,7 @@ def reach(case):
            "metric_" + str(case["params"].get("distance_metric")): True,
            "op_" + case["op"]: True,
            "explicit_targets": case["params"].get("target_values") is not None,
-           "res_from_coords": "res" not in r["attrs"]}
+           "res_from_coords": "res" not in r["attrs"], "pair_in_one_compute": bool(case.get("pair"))}
     if not single and py is not None:
         out["chunk_smaller_than_halo"] = (py > 0 and min(ch[0]) < py) or (px > 0 and min(ch[1]) < px)
         out["halo_ge_1"] = py >= 1 or px >= 1
